@@ -501,6 +501,9 @@ class Interp:
             return self.call_fn(pf, [])
         if t == 'path':
             p = c[1]
+            g = self.subst[-1].get(p)
+            if g is not None and re.match(r'^\d+(_usize)?$', g):
+                return IntV(64, int(g.split('_')[0]))
             base = _strip_generics(p)
             segs = base.split('::')
             if len(segs) >= 2 and segs[-2] in self.enums and segs[-1] in self.enums[segs[-2]]:
@@ -566,7 +569,13 @@ class Interp:
             return Agg(kind, [self.operand(fr, x, f) for x in rv[3]])
         if t == 'repeat':
             v = self.operand(fr, rv[1], f)
-            return Agg('array', [deep_copy(v) for _ in range(rv[2])])
+            n = rv[2]
+            if isinstance(n, str):
+                g = self.subst[-1].get(n)
+                if g is None or not re.match(r'^\d+(_usize)?$', g):
+                    raise Unsupported('array length %s not bound (subst %r)' % (n, self.subst[-1]))
+                n = int(g.split('_')[0])
+            return Agg('array', [deep_copy(v) for _ in range(n)])
         if t == 'adt':
             return self.adt(rv[1], [self.operand(fr, x, f) for x in rv[2]])
         raise Unsupported('rvalue ' + str(rv))
@@ -861,11 +870,22 @@ class Interp:
         return r
 
     def _resolve(self, callee, caller):
+        for pat, fn in self.overrides:
+            if pat.search(callee):
+                return ('model', fn)
+        c = _strip_generics(callee)
+        m = re.match(r'^<(.*) as (.*)>::(\w+)$', c)
+        if m and not m.group(1).startswith(('dyn ', '{closure@')):
+            # a trait implemented (or derived) in the crate for a crate type wins over a generic std model
+            ty0 = mir.type_last(re.sub(r'^&(?:mut )?', '', m.group(1)))
+            trait0 = mir.type_last(m.group(2))
+            c0 = [f for f in self.by_last.get(m.group(3), []) if self.impl_info(f)[0] == ty0 and
+                  self.impl_info(f)[1] in (trait0, 'derive')]
+            if len(c0) == 1 and ty0 not in ('Vec', 'String', 'Option', 'Result', 'HashMap', 'HashSet', 'Rc', 'Box'):
+                return ('fn', c0[0])
         mdl = self.find_model(callee)
         if mdl is not None:
             return ('model', mdl)
-        c = _strip_generics(callee)
-        m = re.match(r'^<(.*) as (.*)>::(\w+)$', c)
         if m:
             tyfull = m.group(1)
             if tyfull.startswith('dyn '):
@@ -925,6 +945,9 @@ class Interp:
             raise Unsupported('call depth')
         self.curfn.append(f)
         self.fn_used.add(f.name)
+        h = self.hooks.get('enter:' + f.last)
+        if h is not None:
+            h(self, args)
         try:
             return self._run(f, args)
         finally:
